@@ -10,6 +10,7 @@ import (
 	"strings"
 	"syscall"
 	"time"
+	"unicode/utf8"
 
 	"github.com/whawty/auth/store"
 	"github.com/whawty/auth/zz_verif/ref"
@@ -413,4 +414,122 @@ func c03drv() {
 	}
 	out, _ := json.Marshal(map[string]any{"root": root, "base": b.base, "cases": recs})
 	os.WriteFile(os.Args[3], out, 0600) //nolint:errcheck
+}
+
+// ---------------------------------------------------------------------------
+// c03fe: hostile names through every frontend of the running binary.
+func init() { stages["c03fe"] = c03fe }
+
+func c03fe() {
+	R := vr.New("C03", "frontends", "the built binary serves a store whose directory also holds planted files with names outside the grammar but valid hashes, next to a sibling store and decoys; every hostile name of the corpus (and the planted names) is submitted with the password that would match if the name were resolved as a path, through the saslauthd socket, HTTP basic-auth, HTTP API, LDAP bind and the CLI, and through the API management endpoints with an admin session; every such request must be denied / refused and the whole sandbox tree must stay byte- and inode-identical. Non-trivial: every (name, frontend) pair; distinct by that pair")
+	defer R.Write()
+	rng := R.Rand("c03fe")
+	bin := filepath.Join(os.Getenv("VERIF_BIN"), "whawty-auth")
+	root := filepath.Join(workDir(), "c03fe", "root")
+	b, err := c03Build(rng, root)
+	if err != nil {
+		R.Fatal = err.Error()
+		return
+	}
+	planted := []string{"-x", ".hidden", "_u", "@at", "a b", "ä", "x:y", "tab\tname", "a*"}
+	ps := b.sets[0]
+	for _, p := range planted {
+		salt := make([]byte, ps.SaltLen())
+		rng.Read(salt)
+		os.WriteFile(filepath.Join(b.base, p+".user"), []byte(ps.Record([]byte(c03Pw(p)), salt, time.Now().Unix())+"\n"), 0600) //nolint:errcheck
+	}
+	agent, err := startAgent(bin, b.cfg, filepath.Dir(root), []string{"sasl", "http", "ldap"}, "--do-check=false")
+	if err != nil {
+		R.Fatal = err.Error()
+		return
+	}
+	defer agent.Stop()
+	hostile, _ := c03Names(b)
+	for _, p := range planted {
+		hostile = append(hostile, c03Name{Name: p, Class: "planted-invalid-name", AuthPw: c03Pw(p)})
+	}
+	// an admin session for the management endpoints
+	sess := ""
+	{
+		body := fmt.Sprintf(`{"username":"root","password":%q}`, c03Pw("root"))
+		if resp, err := c04HTTP.Post("http://"+agent.HTTP+"/api/authenticate", "application/json", strings.NewReader(body)); err == nil {
+			var m map[string]any
+			json.NewDecoder(resp.Body).Decode(&m) //nolint:errcheck
+			resp.Body.Close()                     //nolint:errcheck
+			sess, _ = m["session"].(string)
+		}
+	}
+	if sess == "" {
+		R.Fatal = "could not obtain an admin session"
+		return
+	}
+	before := ref.TakeSnap(root)
+	for ni, n := range hostile {
+		id := fmt.Sprintf("fe/n%d", ni)
+		if !R.Want(id) {
+			continue
+		}
+		R.Mark(id)
+		got := map[string]string{
+			"sasl":  agent.saslAuth(n.Name, n.AuthPw),
+			"basic": agent.basicAuth(n.Name, n.AuthPw),
+			"api":   agent.apiAuth(n.Name, n.AuthPw, false),
+			"ldap":  agent.ldapBind(n.Name, n.AuthPw),
+		}
+		if ni%4 == 0 || n.Class == "planted-invalid-name" {
+			got["cli"] = agent.cliAuth(n.Name, n.AuthPw)
+		}
+		// LDAP cuts the bind name at '@': "x@..." names that become valid are judged by C04
+		if i := strings.Index(n.Name, "@"); i >= 0 && ref.NameValid(n.Name[:i]) {
+			delete(got, "ldap")
+		}
+		for fe, v := range got {
+			R.Case(n.Name+"\x00"+fe, true)
+			if v == "n/a" {
+				continue
+			}
+			R.Count("frontend_probes:"+fe, 1)
+			if v == "ok" {
+				R.Violate("c03:invalid-name-authenticates:"+fe+":"+n.Class, fmt.Sprintf("name %s (outside the grammar) authenticates through %s", vr.Q(n.Name), fe), id, map[string]any{"name": vr.Q(n.Name), "class": n.Class, "frontend": fe})
+			}
+		}
+		// management endpoints with an admin session
+		if utf8.ValidString(n.Name) && n.Name != "" {
+			for _, ep := range []struct{ path, body string }{
+				{"/api/add", fmt.Sprintf(`{"session":%q,"username":%q,"password":"Added-Pw-1234","admin":true}`, sess, n.Name)},
+				{"/api/update", fmt.Sprintf(`{"session":%q,"username":%q,"newpassword":"Updated-Pw-1234"}`, sess, n.Name)},
+				{"/api/update", fmt.Sprintf(`{"username":%q,"oldpassword":%q,"newpassword":"Updated-Pw-1234"}`, n.Name, n.AuthPw)},
+				{"/api/set-admin", fmt.Sprintf(`{"session":%q,"username":%q,"admin":true}`, sess, n.Name)},
+				{"/api/remove", fmt.Sprintf(`{"session":%q,"username":%q}`, sess, n.Name)},
+			} {
+				resp, err := c04HTTP.Post("http://"+agent.HTTP+ep.path, "application/json", strings.NewReader(ep.body))
+				if err == nil {
+					resp.Body.Close() //nolint:errcheck
+				}
+				R.Count("management_probes", 1)
+			}
+		}
+		after := ref.TakeSnap(root)
+		if diff := ref.Diff(before, after, ref.DiffOpts{Inode: true, IgnorePath: func(rel string) bool { return strings.HasSuffix(rel, ".tmp") }}); len(diff) > 0 {
+			R.Violate("c03:frontend-request-with-invalid-name-changed-tree:"+n.Class, fmt.Sprintf("requests with name %s changed the file system: %v", vr.Q(n.Name), diff), id, map[string]any{"name": vr.Q(n.Name), "diff": diff})
+			before = after
+		}
+	}
+	// the list endpoint must not show the planted names
+	resp, err := c04HTTP.Post("http://"+agent.HTTP+"/api/list", "application/json", strings.NewReader(fmt.Sprintf(`{"session":%q}`, sess)))
+	if err == nil {
+		var m map[string]any
+		json.NewDecoder(resp.Body).Decode(&m) //nolint:errcheck
+		resp.Body.Close()                     //nolint:errcheck
+		l, _ := m["list"].(map[string]any)
+		for _, p := range planted {
+			if _, in := l[p]; in {
+				R.Violate("c03:invalid-named-file-listed:api", "the API lists "+vr.Q(p), "fe/list", nil)
+			}
+		}
+		R.Count("list_checked", 1)
+	}
+	if !agent.Alive() {
+		R.Violate("c03:agent-died", agent.out.String(), "fe", nil)
+	}
 }
